@@ -139,26 +139,85 @@ theorem surrogate_split_witness :
      | _ => false) = true := by
   decide +kernel
 
-/-- `c19-findpos-after-element`: in `<r><p><b></b>xy</p></r>` deleting `<b></b>` with `Edit(1,3)` also
-    deletes "xy": `FindPos(3)` is (text "xy", offset 0), which `Edit` reads as the position after "xy" -/
-theorem findpos_after_element_witness :
-    (match localXML [⟨0, [114], [], []⟩, ⟨1, [112], [], []⟩, ⟨2, [98], [], []⟩, ⟨2, textType, [120, 121], []⟩]
-        (.edit 1 3 [] 0) with
-     | .ok (some x) => x == [60, 114, 62, 60, 112, 62, 60, 47, 112, 62, 60, 47, 114, 62]   -- <r><p></p></r>
+/-! ### `c19-findpos-after-element` (repaired: hooks/fix-c19-findpos-after-element.patch, 74247a0f; switch
+    `fixFindPosAfterElement` of Model/Tree.lean). The `_off` statements are about the tree BEFORE the repair
+    (`Tree.findPosW false`), the `_fixed` ones about the model as it stands. -/
+
+/-- a json-layer `Edit(fr, to, contents)` with the positions of the tree BEFORE the repair; otherwise `localCall` -/
+def editOldPos (clone : Tree) (nid : ChangeID) (fr to : Nat) (contents : List (List JItem)) : Except Err (Tree × Op) :=
+  match clone.findPosW false fr, clone.findPosW false to with
+  | .ok fp, .ok tp =>
+    let (cs, delim) := buildContents nid.lamport nid.actor 0 contents
+    let ts : Ticket := ⟨nid.lamport, delim, nid.actor⟩
+    match clone.applyEdit fp tp cs 0 ts ⟨[], nid.lamport, nid.actor, delim, []⟩ [] true with
+    | .error e => .error e
+    | .ok (t', src) => .ok (t', .edit fp tp cs 0 ts src.issued)
+  | .error e, _ => .error e
+  | _, .error e => .error e
+
+def docBxy : List JItem := [⟨0, [114], [], []⟩, ⟨1, [112], [], []⟩, ⟨2, [98], [], []⟩, ⟨2, textType, [120, 121], []⟩]
+
+/-- before the repair: in `<r><p><b></b>xy</p></r>` deleting `<b></b>` with `Edit(1,3)` also deleted "xy": `FindPos(3)` was
+    (text "xy", offset 0), which `Edit` reads as the position after "xy" -/
+theorem findpos_after_element_witness_off :
+    (match editOldPos (pTree docBxy) (ChangeID.initial.setActor 1 |>.next |>.next) 1 3 [] with
+     | .ok (t, _) => t.toXMLCodes == "<r><p></p></r>".toList.map Char.toNat
+     | .error _ => false) = true := by
+  decide +kernel
+
+/-- repaired: the same call deletes `<b></b>` only -/
+theorem findpos_after_element_fixed :
+    (match localXML docBxy (.edit 1 3 [] 0) with
+     | .ok (some x) => x == "<r><p>xy</p></r>".toList.map Char.toNat
      | _ => false) = true := by
   decide +kernel
 
-/-- `c19-findpos-after-element`, the DIVERGENCE it causes: in `<r><p><i></i>xyz</p></r>` d1 runs `Edit(3,5)` (delete "xy":
-    index 3 is right after `</i>`, `FindPos` gives (text "xyz", offset 0)) while d2 inserts "Q" between x and y. On d1, where
-    "xyz" is one piece, the anchor means "after xyz" and nothing is deleted; on d2, where the insert has split the text, the
-    floor of the same anchor is the piece "x": the same operation deletes "y". Both have applied both changes:
-    d1 = `<r><p><i></i>xQyz</p></r>`, d2 = `<r><p><i></i>xQz</p></r>`
+def docIxyz : List JItem := [⟨0, [114], [], []⟩, ⟨1, [112], [], []⟩, ⟨2, [105], [], []⟩, ⟨2, textType, [120, 121, 122], []⟩]
+
+/-- `runCase` with d1's call resolved by the tree BEFORE the repair -/
+def runOldPos (init : List JItem) (fr to : Nat) (call2 : Call) : Except Err (Rep × Rep) :=
+  let t0 := initialTree actor1 init
+  let id1 : ChangeID := ChangeID.initial.setActor actor1 |>.next
+  match t0.snapshot with
+  | .error e => .error e
+  | .ok tw =>
+    let w := tw.deepCopy
+    let d2 : Rep := { id := (ChangeID.initial.setActor actor2).syncClocks id1, root := w, clone := w }
+    let nid := id1.next
+    match editOldPos t0 nid fr to [] with
+    | .error e => .error e
+    | .ok (clone', op) =>
+      match t0.deepCopy.applyOp op nid.vv true with
+      | .error e => .error e
+      | .ok root' =>
+        let d1a : Rep := { id := nid, root := root', clone := clone' }
+        match d2.update call2 with
+        | .error e => .error e
+        | .ok (d2a, ch2) =>
+          match d1a.applyRemoteO ch2, d2a.applyRemote ⟨nid, op⟩ with
+          | .ok d1b, .ok d2b => .ok (d1b, d2b)
+          | .error e, _ => .error e
+          | _, .error e => .error e
+
+/-- before the repair, the DIVERGENCE: in `<r><p><i></i>xyz</p></r>` d1 runs `Edit(3,5)` (delete "xy": index 3 is right after
+    `</i>`, `FindPos` gave (text "xyz", offset 0)) while d2 inserts "Q" between x and y. On d1, where "xyz" is one piece, the
+    anchor meant "after xyz" and nothing was deleted; on d2, where the insert has split the text, the floor of the same anchor
+    is the piece "x": the same operation deleted "y". Both applied both changes: d1 = `xQyz`, d2 = `xQz`
     (corpus/C19/tree-findpos-after-element-diverge.trace, corpus/C01/tree-findpos-after-element-diverge.repro.go.txt) -/
-theorem findpos_after_element_diverge_witness :
-    (match runCase ⟨0, [⟨0, [114], [], []⟩, ⟨1, [112], [], []⟩, ⟨2, [105], [], []⟩, ⟨2, textType, [120, 121, 122], []⟩],
-        .edit 3 5 [] 0, .edit 4 4 [[⟨0, textType, [81], []⟩]] 0⟩ with
-     | .ok o => o.d1.root.toXMLCodes == "<r><p><i></i>xQyz</p></r>".toList.map Char.toNat &&
-                o.d2.root.toXMLCodes == "<r><p><i></i>xQz</p></r>".toList.map Char.toNat &&
+theorem findpos_after_element_diverge_witness_off :
+    (match runOldPos docIxyz 3 5 (.edit 4 4 [[⟨0, textType, [81], []⟩]] 0) with
+     | .ok (d1, d2) => d1.root.toXMLCodes == "<r><p><i></i>xQyz</p></r>".toList.map Char.toNat &&
+                d2.root.toXMLCodes == "<r><p><i></i>xQz</p></r>".toList.map Char.toNat &&
+                xmlEq d1.clone d1.root && xmlEq d2.clone d2.root
+     | .error _ => false) = true := by
+  decide +kernel
+
+/-- repaired: the position names `<i>` as left sibling, the same place on both replicas: d1 deletes "xy", the concurrently
+    inserted "Q" survives inside the deleted range, both end with `<r><p><i></i>Qz</p></r>` -/
+theorem findpos_after_element_diverge_fixed :
+    (match runCase ⟨0, docIxyz, .edit 3 5 [] 0, .edit 4 4 [[⟨0, textType, [81], []⟩]] 0⟩ with
+     | .ok o => o.d1.root.toXMLCodes == "<r><p><i></i>Qz</p></r>".toList.map Char.toNat &&
+                o.d2.root.toXMLCodes == "<r><p><i></i>Qz</p></r>".toList.map Char.toNat &&
                 xmlEq o.d1.clone o.d1.root && xmlEq o.d2.clone o.d2.root
      | .error _ => false) = true := by
   decide +kernel
